@@ -219,11 +219,112 @@ theorem group_undone_as_one (h : Nat) (rule : Bool → Bool) (hr0 : rule false =
   refine ⟨by rw [hundo], by rw [hundo, hr], ?_⟩
   exact (redo_undo k1.st (by rw [hundo]; exact fun e => hne e.symm)).1
 
+/-- **typing_then_undo.**  The everyday instance: after anything that was not self-insert, type ANY
+    non-empty string character by character through a handler with the `if_no_repeat` rule; ONE
+    undo restores exactly the text and cursor from before the first character. -/
+theorem typing_then_undo (h : Nat) (rule : Bool → Bool) (hr0 : rule false = true)
+    (hr1 : rule true = false) (k0 : KSt) (hp : k0.prev ≠ some h) (c : Char) (cs : List Char) :
+    (undo (runSame h rule ((c :: cs).map fun ch => insertText [ch]) k0).st).buf = k0.st.buf := by
+  have hlen : ∀ (fs : List Char) (k : KSt),
+      (runSame h rule (fs.map fun ch => insertText [ch]) k).st.buf.text.length =
+        k.st.buf.text.length + fs.length := by
+    intro fs
+    induction fs with
+    | nil => intro k; rfl
+    | cons x xs ih =>
+      intro k
+      have hstep : (callHandler h rule [Act.edit (insertText [x])] k).st.buf.text.length =
+          k.st.buf.text.length + 1 := by
+        simp only [callHandler_eq, List.foldl_cons, List.foldl_nil, act, boundary_buf, insertText,
+          List.length_append, List.length_take, List.length_drop, List.length_cons, List.length_nil]
+        omega
+      simp only [List.map_cons, runSame, List.foldl_cons]
+      have := ih (callHandler h rule [Act.edit (insertText [x])] k)
+      simp only [runSame] at this
+      rw [this, hstep, List.length_cons]; omega
+  have hne : (runSame h rule ((c :: cs).map fun ch => insertText [ch]) k0).st.buf.text ≠ k0.st.buf.text := by
+    intro e
+    have := hlen (c :: cs) k0
+    rw [e] at this
+    simp at this
+  exact (group_undone_as_one h rule hr0 hr1 k0 hp (insertText [c]) (cs.map fun ch => insertText [ch]) hne).1
+
+/-- commands that keep the text (cursor motions, Escape, mode switches, …): any handlers, any rules -/
+def runKeep (ms : List (Nat × (Bool → Bool) × (Buf → Buf))) (k : KSt) : KSt :=
+  ms.foldl (fun k m => callHandler m.1 m.2.1 [Act.edit m.2.2] k) k
+
+/-- **group_then_motions_then_undo.**  As `group_undone_as_one`, but between the run and the undo
+    ANY number of text-preserving commands may happen (e.g. Vi: `i` … typed text … Escape, then
+    `u`; emacs: typed text, cursor keys, then C-_): the first undo still restores exactly the
+    (text, cursor) from before the run. -/
+theorem group_then_motions_then_undo (h : Nat) (rule : Bool → Bool) (hr0 : rule false = true)
+    (hr1 : rule true = false) (k0 : KSt) (hp : k0.prev ≠ some h) (f : Buf → Buf)
+    (fs : List (Buf → Buf)) (ms : List (Nat × (Bool → Bool) × (Buf → Buf)))
+    (hms : ∀ m ∈ ms, ∀ b, (m.2.2 b).text = b.text) :
+    let k1 := runSame h rule (f :: fs) k0
+    k1.st.buf.text ≠ k0.st.buf.text → (undo (runKeep ms k1).st).buf = k0.st.buf := by
+  intro k1 hne
+  -- the stack after the run
+  have hfirst : callHandler h rule [Act.edit f] k0 =
+      { st := { (saveToUndo true k0.st) with buf := f k0.st.buf }, prev := some h } := by
+    simp [callHandler_eq, boundary, hp, hr0, act, saveToUndo_buf]
+  obtain ⟨rest, hrest⟩ := saveToUndo_top true k0.st
+  have hrun := runSame_repeat h rule fs (callHandler h rule [Act.edit f] k0) (by rw [hfirst]) hr1
+  have hk1 : k1 = runSame h rule fs (callHandler h rule [Act.edit f] k0) := rfl
+  rw [← hk1, hfirst] at hrun
+  have hu : k1.st.undo = k0.st.buf :: rest := by rw [hrun.1]; exact hrest
+  -- invariant along the text-preserving commands
+  have hinv : ∀ (ms : List (Nat × (Bool → Bool) × (Buf → Buf))) (k : KSt),
+      (∀ m ∈ ms, ∀ b, (m.2.2 b).text = b.text) →
+      k.st.buf.text = k1.st.buf.text →
+      (k.st.undo = k0.st.buf :: rest ∨ ∃ p, p.text = k1.st.buf.text ∧ k.st.undo = p :: k0.st.buf :: rest) →
+      (undo (runKeep ms k).st).buf = k0.st.buf := by
+    intro ms
+    induction ms with
+    | nil =>
+      intro k _ ht hs
+      have hne' : k0.st.buf.text ≠ k.st.buf.text := by rw [ht]; exact fun e => hne e.symm
+      rcases hs with hs | ⟨p, hpt, hs⟩
+      · have hl : undoLoop k.st.buf k.st.undo = some (k0.st.buf, rest) := by
+          rw [hs]; unfold undoLoop; rw [if_pos hne']
+        show (undo k.st).buf = _
+        rw [undo_some hl]
+      · have hl : undoLoop k.st.buf k.st.undo = some (k0.st.buf, rest) := by
+          rw [hs]; unfold undoLoop
+          rw [if_neg (by rw [hpt, ht]; simp)]
+          unfold undoLoop; rw [if_pos hne']
+        show (undo k.st).buf = _
+        rw [undo_some hl]
+    | cons m ms ih =>
+      intro k hm ht hs
+      apply ih (callHandler m.1 m.2.1 [Act.edit m.2.2] k) (fun m' hm' => hm m' (List.mem_cons_of_mem _ hm'))
+      · simp only [callHandler_eq, List.foldl_cons, List.foldl_nil, act, boundary_buf]
+        rw [hm m (by simp)]; exact ht
+      · simp only [callHandler_eq, List.foldl_cons, List.foldl_nil, act]
+        unfold boundary
+        split
+        · -- the boundary saved
+          unfold saveToUndo
+          rcases hs with hs | ⟨p, hpt, hs⟩
+          · right
+            rw [hs]
+            have : ¬ (k0.st.buf.text = k.st.buf.text) := by rw [ht]; exact fun e => hne e.symm
+            simp only [this, if_false]
+            exact ⟨k.st.buf, ht, rfl⟩
+          · right
+            rw [hs]
+            have : p.text = k.st.buf.text := by rw [hpt, ht]
+            simp only [this, if_true]
+            exact ⟨_, ht, rfl⟩
+        · exact hs
+  exact hinv ms k1 hms rfl (Or.inl hu)
+
 /-- **ungrouped_when_every_call_saves** (the defect found in /repo, shown on the model).
     If the effective rule of the self-insert binding is `always` — which is what
-    `KeyBindings.add(..., save_before=if_no_repeat)(<Binding>)` produced before the fix, because the
-    explicit `save_before` was ignored — typing `a`, `b` at `x|y` and undoing once gives `xa|y`,
-    not `x|y`: the run is NOT undone as one group. -/
+    `KeyBindings.add(..., save_before=if_no_repeat)(<Binding>)` produced before /repo commit 3961882,
+    because the explicit `save_before` was ignored — typing `a`, `b` at `x|y` and undoing once gives
+    `xa|y`, not `x|y`: the run is NOT undone as one group.  (Replayed on the real code by the
+    corpus witness `emacs "x|y" a b C-_`; `group_undone_as_one` is what holds after the fix.) -/
 theorem ungrouped_when_every_call_saves :
     let k0 := kInit { text := ['x', 'y'], cur := 1 }
     let k1 := runSame 0 (fun _ => true) [insertText ['a'], insertText ['b']] k0
@@ -328,7 +429,130 @@ theorem undo_skips_at_most_one (s : St) (h : AdjDistinct s.undo) (t : Buf) (rest
       rw [h1] at h
       exact absurd ((h2 p (by simp)).trans (h2 q (by simp)).symm) h.1
 
-/-! ## 7. Non-vacuity: the hypotheses above are satisfiable on concrete, non-trivial sessions -/
+/-! ## 7. The shipped emacs bindings: hypothesis-free instances
+
+    `EKey` / `ekey` (Model) is the fully modelled key set {printable characters, Backspace, Delete,
+    Left, Right, Home, End, C-k, C-_, C-x C-u, redo}; its rules and handler identities are the ones
+    declared in basic.py / emacs.py, and the correspondence checks on every run that the real
+    `PromptSession` agrees with it key by key (text, cursor, both stacks, previous handler). -/
+
+/-- the same key as a `Cmd` of the general session model -/
+def EKey.toCmd (key : EKey) : Cmd :=
+  { h := key.hid,
+    body := match key with
+      | .char c => .edit (insertText [c])
+      | .backspace => .edit (deleteBefore 1)
+      | .delete => .edit (Ptk.C07.delete 1)
+      | .left => .edit fun b => setCursor ((b.cur : Int) - min (lineBeforeLen b) 1) b
+      | .right => .edit fun b => setCursor ((b.cur : Int) + min (lineAfterLen b) 1) b
+      | .home => .edit fun b => setCursor ((b.cur : Int) - lineBeforeLen b) b
+      | .eol => .edit fun b => setCursor ((b.cur : Int) + lineAfterLen b) b
+      | .killLine => .edit Ptk.C07.killLine
+      | .undo => .undo 1 id
+      | .undoXU => .undo 1 id
+      | .redo => .redo id }
+
+/-- the `save_before` table of the shipped bindings, by handler identity -/
+def eRule : Nat → Bool → Bool := fun h rep =>
+  if h ≤ 2 then !rep else if h ≤ 7 then true else false
+
+/-- handlers 0..7 edit, 8..10 are undo / redo -/
+def eIsEdit : Nat → Bool := fun h => decide (h ≤ 7)
+
+theorem ekey_eq_stepK (k : KSt) (key : EKey) : ekey k key = stepK eRule k key.toCmd := by
+  cases key <;> rfl
+
+/-- a whole emacs key session -/
+def eRun (keys : List EKey) (k : KSt) : KSt := keys.foldl ekey k
+
+theorem eRun_eq_runK (keys : List EKey) (k : KSt) :
+    eRun keys k = runK eRule (keys.map EKey.toCmd) k := by
+  induction keys generalizing k with
+  | nil => rfl
+  | cons x xs ih => simp only [eRun, List.foldl_cons, List.map_cons, runK] at *; rw [ekey_eq_stepK]; exact ih _
+
+theorem eWF (keys : List EKey) : WF eRule eIsEdit (keys.map EKey.toCmd) where
+  saves := by
+    intro h hh
+    simp only [eIsEdit, decide_eq_true_eq] at hh
+    unfold eRule
+    by_cases h2 : h ≤ 2 <;> simp [h2, hh]
+  kind := by
+    intro c hc
+    obtain ⟨key, _, rfl⟩ := List.mem_map.mp hc
+    cases key <;> rfl
+  post := by
+    intro c hc
+    obtain ⟨key, _, rfl⟩ := List.mem_map.mp hc
+    cases key <;> simp [EKey.toCmd, Body.PostKeepsText]
+
+/-- **emacs_undo_reaches_initial.**  For EVERY sequence of these emacs keys from EVERY initial
+    document: undoing at least as often as the stack is high ends on the initial text. -/
+theorem emacs_undo_reaches_initial (keys : List EKey) (b0 : Buf) (n : Nat)
+    (hn : (eRun keys (kInit b0)).st.undo.length ≤ n) :
+    (undoN n (eRun keys (kInit b0)).st).buf.text = b0.text := by
+  rw [eRun_eq_runK] at hn ⊢
+  exact (undo_reaches_initial eRule eIsEdit _ b0 (eWF keys) n hn).1
+
+/-- **emacs_edit_discards_redo.**  For every key sequence: right after any key that is not undo /
+    redo, the redo stack is empty. -/
+theorem emacs_edit_discards_redo (keys : List EKey) (key : EKey) (b0 : Buf)
+    (hk : key ≠ .undo ∧ key ≠ .undoXU ∧ key ≠ .redo) :
+    (eRun (keys ++ [key]) (kInit b0)).st.redo = [] := by
+  rw [eRun_eq_runK, List.map_append]
+  apply edit_discards_redo eRule eIsEdit _ _ b0
+  · have := eWF (keys ++ [key]); rwa [List.map_append] at this
+  · obtain ⟨h1, h2, h3⟩ := hk
+    cases key <;> first | rfl | exact absurd rfl h1 | exact absurd rfl h2 | exact absurd rfl h3
+
+/-- **emacs_undo_lands_on_logged_state.**  For every key sequence, pressing C-_ afterwards either
+    changes nothing or lands on a (text, cursor) the buffer had right before one of the earlier
+    keys, with a different text. -/
+theorem emacs_undo_lands_on_logged_state (keys : List EKey) (b0 : Buf) :
+    let g := runG eRule (keys.map EKey.toCmd) (gInit b0)
+    g.k = eRun keys (kInit b0) ∧
+    ((ekey g.k .undo).st.buf = g.k.st.buf ∨
+      ((ekey g.k .undo).st.buf ∈ g.log ∧ (ekey g.k .undo).st.buf.text ≠ g.k.st.buf.text)) := by
+  intro g
+  refine ⟨by rw [eRun_eq_runK]; exact runG_k _ _ _, ?_⟩
+  have h := undo_restores_logged eRule (keys.map EKey.toCmd) b0
+  have he : (ekey g.k .undo).st = undo g.k.st := by
+    simp [ekey, callHandler_eq, boundary, EKey.rule, EKey.acts, act]
+  rw [he]; exact h
+
+/-- **emacs_typing_then_undo.**  After any key sequence that does not end in a printable character,
+    type any non-empty string and press C-_ once: text and cursor are exactly as before the string. -/
+theorem emacs_typing_then_undo (keys : List EKey) (b0 : Buf) (c : Char) (cs : List Char)
+    (hlast : ∀ k ∈ keys.getLast?, ∀ ch, k ≠ .char ch) :
+    (ekey (eRun ((c :: cs).map EKey.char) (eRun keys (kInit b0))) .undo).st.buf =
+      (eRun keys (kInit b0)).st.buf := by
+  have hp : (eRun keys (kInit b0)).prev ≠ some 0 := by
+    cases hl : keys.getLast? with
+    | none =>
+      have : keys = [] := List.getLast?_eq_none_iff.mp hl
+      subst this; simp [eRun, kInit]
+    | some k =>
+      obtain ⟨ys, rfl⟩ : ∃ ys, keys = ys ++ [k] := by
+        have := List.getLast?_eq_some_iff.mp hl
+        obtain ⟨ys, h⟩ := this; exact ⟨ys, h⟩
+      have hk := hlast k (by simp [hl])
+      simp only [eRun, List.foldl_append, List.foldl_cons, List.foldl_nil, ekey, callHandler_eq]
+      intro e
+      simp only [Option.some.injEq] at e
+      cases k <;> simp [EKey.hid] at e
+      exact hk _ rfl
+  have hrun : ∀ (l : List Char) (k : KSt),
+      eRun (l.map EKey.char) k = runSame 0 (fun rep => !rep) (l.map fun ch => insertText [ch]) k := by
+    intro l
+    induction l with
+    | nil => intro k; rfl
+    | cons x xs ih => intro k; simp only [List.map_cons, eRun, runSame, List.foldl_cons] at *; exact ih _
+  have he : ∀ k : KSt, (ekey k .undo).st = undo k.st := by
+    intro k; simp [ekey, callHandler_eq, boundary, EKey.rule, EKey.acts, act]
+  rw [he, hrun]
+  exact typing_then_undo 0 (fun rep => !rep) rfl rfl _ hp c cs
+
+/-! ## 8. Non-vacuity: the hypotheses above are satisfiable on concrete, non-trivial sessions -/
 
 section Examples
 
@@ -408,6 +632,14 @@ example :
     let k0 : KSt := { st := { buf := exB0, undo := [{ text := [], cur := 0 }], redo := [exB0] }, prev := some 7 }
     rule false = true ∧ rule true = false ∧ k0.prev ≠ some 0 ∧
       (runSame 0 rule [insertText ['a'], insertText ['b'], insertText ['c']] k0).st.buf.text ≠ k0.st.buf.text := by
+  decide
+
+/-- typing_then_undo on a concrete state: three typed characters, one undo, the old state is back -/
+example :
+    let k0 : KSt := { st := { buf := exB0, undo := [{ text := [], cur := 0 }], redo := [exB0] }, prev := some 7 }
+    (undo (runSame 0 (fun rep => !rep) (['a', 'b', 'c'].map fun ch => insertText [ch]) k0).st).buf = exB0 ∧
+    (runSame 0 (fun rep => !rep) (['a', 'b', 'c'].map fun ch => insertText [ch]) k0).st.buf =
+      { text := ['x', 'a', 'b', 'c', 'y'], cur := 4 } := by
   decide
 
 /-- snapshots_valid: the concrete edits used here keep documents valid -/
